@@ -3,8 +3,10 @@
    Closures are scripts: a handler is (label, capture_all, packets it transmits through the protocol
    handle it is given); every invocation is logged as (handler id, label, packet seen).
    The interface is a script: answers to try_get_packet and answers to try_send_packet.
-   Handlers that send to the device's own address (re-entrant dispatch) or mutate the registry while
-   being dispatched are outside the model (wf_table). *)
+   A handler that sends to the device's own address re-enters the dispatcher (hsend); the scripted handlers
+   send only from a top-level dispatch (a handler that sent to the own address from every invocation would
+   recurse for ever in the implementation too).  Handlers that mutate the registry while being dispatched
+   are outside the model. *)
 Require Import RP.Model.Base RP.Model.Packet RP.Model.Events.
 
 (* ---------- registry ---------- *)
@@ -44,34 +46,52 @@ Definition isend (i: iface) (p: packet) : N * iface :=
 
 Definition logent := (N * N * packet)%type.      (* handler id, label, packet it was given *)
 
-(* a handler body: it transmits its packets through the handle (results ignored by the closure) *)
+(* isend_all: the packets ps handed to the link one after the other *)
 Fixpoint isend_all (i: iface) (ps: list packet) : iface :=
   match ps with [] => i | p :: t => isend_all (snd (isend i p)) t end.
 
+(* send_packet's routing rule: a packet addressed to the own address is looped back to the local handlers and is
+   put on the link only by a device whose own address is the broadcast address; every other packet is transmitted *)
+Definition transmitted (own: N) (p: packet) : bool := negb (p_addr p =? own) || (own =? BROADCAST).
+
+(* A handler body (a script): it logs the packet it was given and, when it was invoked by a top-level dispatch,
+   calls send_packet on the protocol handle for each of its packets, ignoring the results.  Such a nested
+   send_packet of a packet q addressed to the own address dispatches q - re-entrantly, while the outer walk
+   over the table is suspended - to EVERY registered handler (leaf_log: the scripted handlers do not send again
+   from a nested dispatch, which is what keeps the recursion finite), and transmits q as `transmitted` says. *)
+Definition leaf_log (t: table) (q: packet) : list logent := map (fun kh => (fst kh, h_label (snd kh), q)) t.
+Definition hsend (own: N) (full: table) (acc: list logent * iface) (q: packet) : list logent * iface :=
+  (if p_addr q =? own then fst acc ++ leaf_log full q else fst acc,
+   if transmitted own q then snd (isend (snd acc) q) else snd acc).
+Definition hbody (own: N) (full: table) (h: handler) (i: iface) : list logent * iface :=
+  fold_left (hsend own full) (h_sends h) ([], i).
+
 (* handle_packet: every handler in key order, if owned_address or the handler captures all addresses *)
-Fixpoint handle_packet (t: table) (p: packet) (owned: bool) (i: iface) : list logent * iface :=
+Fixpoint handle_go (own: N) (full t: table) (p: packet) (owned: bool) (i: iface) : list logent * iface :=
   match t with
   | [] => ([], i)
   | (id, h) :: r =>
       if owned || h_cap h then
-        let i' := isend_all i (h_sends h) in
-        let '(log, i'') := handle_packet r p owned i' in ((id, h_label h, p) :: log, i'')
-      else handle_packet r p owned i
+        let '(l1, i') := hbody own full h i in
+        let '(l2, i'') := handle_go own full r p owned i' in ((id, h_label h, p) :: l1 ++ l2, i'')
+      else handle_go own full r p owned i
   end.
+Definition handle_packet (own: N) (t: table) (p: packet) (owned: bool) (i: iface) : list logent * iface :=
+  handle_go own t t p owned i.
 
 Definition owned_addr (own: N) (p: packet) : bool := (p_addr p =? own) || (p_addr p =? BROADCAST).
 
 (* tick *)
 Definition tick (own: N) (t: table) (i: iface) : out unit perr * list logent * iface :=
   match iget i with
-  | (GPacket p, i') => let '(log, i'') := handle_packet t p (owned_addr own p) i' in (Val tt, log, i'')
+  | (GPacket p, i') => let '(log, i'') := handle_packet own t p (owned_addr own p) i' in (Val tt, log, i'')
   | (GNone, i') => (Val tt, [], i')
   | (GErr c, i') => (Fail (PInterface c), [], i')
   end.
 
 (* send_packet *)
 Definition send_packet (own: N) (t: table) (p: packet) (i: iface) : out unit perr * list logent * iface :=
-  let '(log, i1) := if p_addr p =? own then handle_packet t p true i else ([], i) in
+  let '(log, i1) := if p_addr p =? own then handle_packet own t p true i else ([], i) in
   if (p_addr p =? own) && negb (own =? BROADCAST) then (Val tt, log, i1)
   else let '(a, i2) := isend i1 p in ((if a =? 0 then Val tt else Fail (PInterface a)), log, i2).
 
@@ -115,5 +135,5 @@ Definition exchangeN (own: N) (t: table) (p: packet) (cap: bool) (k: kind) (i: i
   | (Panic, log, i1) => (Panic, log, [], i1) | (Hang, log, i1) => (Hang, log, [], i1)
   end.
 
-(* handlers never send to the device's own address *)
-Definition wf_table (own: N) (t: table) : Prop := Forall (fun kh => Forall (fun p => p_addr p <> own) (h_sends (snd kh))) t.
+(* tables whose handlers never send to the device's own address: no re-entrant dispatch *)
+Definition quiet (own: N) (t: table) : bool := forallb (fun kh => forallb (fun q => negb (p_addr q =? own)) (h_sends (snd kh))) t.
